@@ -144,7 +144,9 @@ def run_kapi(c, res, pid, profile, nseq, nops, seed, monitor_name, userpins=True
                 stats['op_kinds'][k] = stats['op_kinds'].get(k, 0) + 1
                 stats['rv_kinds'][r.get('rv', '?')] = stats['rv_kinds'].get(r.get('rv', '?'), 0) + 1
             stats['compared'] += dis['compared']
+            stats['wrong_key_reads_not_compared'] = stats.get('wrong_key_reads_not_compared', 0) + dis.get('wrong_key', 0)
             stats['unmodelled_stops'] += 1 if dis['unmodelled'] else 0
+            stats['unreadable_label_stops'] = stats.get('unreadable_label_stops', 0) + dis.get('unreadable_label', 0)
             sig = tuple((l.split()[0], r.get('rv')) for l, r in trace)
             nontrivial = sum(1 for l, r in trace[12:] if r.get('rv') == '0x0') >= 3
             if sig not in seen and nontrivial:
@@ -206,8 +208,21 @@ def replay_sequence(c, ops, mres, coredrv=None):
             if j >= len(real):
                 dis['first'] = (j, 'the implementation produced no result (process died?)')
                 break
+            if line.split()[0] in ('find', 'findseq') and 'ff3f' in real[j].get('newlabels', '').split(','):
+                # the search registered an object whose label cannot be read through this session (a private session object of
+                # ANOTHER token, F23: its label is encrypted under that token's key).  The driver names new handles in label
+                # order; without the label the names of model and implementation cannot be aligned from here on
+                dis['unmodelled'] = True
+                dis['unreadable_label'] = 1
+                break
             why = kapi.compare(line, real[j], mr)
             dis['compared'] += 1
+            if why and kapi.wrong_key_case(ops, real, j, mr):
+                # decryption under another token's key (F23): the outcome is random, see kapi.wrong_key_case
+                dis['wrong_key'] = dis.get('wrong_key', 0) + 1
+                if line.split()[0] == 'getattr':
+                    continue
+                break
             if why:
                 dis['first'] = (j, why)
                 break
